@@ -389,6 +389,7 @@ def apply_via_recipe(pp, subs, world, act):
     """Declare the objects the action mentions, add the action as one recipe step, bake.
     obs['new'] holds the baked objects under their names (all declared + created ones)."""
     op = act['op']
+    passed = []          # (fingerprint before, object) of everything handed to the recipe, slices included
     try:
         r = pp.Recipe()
         used = []
@@ -400,7 +401,9 @@ def apply_via_recipe(pp, subs, world, act):
 
         def rref(x):
             use(refname(x))
-            return resolve(world, x)
+            o = resolve(world, x)
+            passed.append((exact_obj(o), o))
+            return o
         if op == 'transfer':
             r.transfer(rref(act['src']), rref(act['dst']), act['q'])
         elif op == 'remove':
@@ -427,5 +430,5 @@ def apply_via_recipe(pp, subs, world, act):
     except env.InternalError:
         raise
     except Exception as e:  # noqa
-        return {'ok': False, 'exc': e, 'new': {}, 'ret': None}
-    return {'ok': True, 'exc': None, 'new': dict(res), 'ret': res, 'recipe': r}
+        return {'ok': False, 'exc': e, 'new': {}, 'ret': None, 'passed': passed}
+    return {'ok': True, 'exc': None, 'new': dict(res), 'ret': res, 'recipe': r, 'passed': passed}
